@@ -155,6 +155,8 @@ func vclockFreeze()                     {}
 func vsymbolic() bool                   { return true }
 func vreadvPush(n int)                  {}
 func vfetchPush(id int)                 {}
+func vfetchPushTimer(id int)            {}
+func vexpectTimerAtBlock()              {}
 func vfdWrites() int                    { return 0 }
 func vfdWrite(i int) []byte             { return nil }
 `
@@ -265,6 +267,8 @@ func vclockFreeze()           {}
 func vsymbolic() bool         { return false }
 func vreadvPush(n int)        {}
 func vfetchPush(id int)       {}
+func vfetchPushTimer(id int)  {}
+func vexpectTimerAtBlock()    {}
 func vfdWrites() int          { return 0 }
 func vfdWrite(i int) []byte   { return nil }
 func vparam(name string, def int) int {
